@@ -12,6 +12,7 @@ import Driver.C15
 import Driver.C06
 import Driver.C13
 import Driver.C11
+import Driver.C04
 open Driver
 
 def handle (line : String) : String :=
@@ -34,6 +35,7 @@ def handle (line : String) : String :=
   | "c13" :: args => c13 args
   | "c11" :: args => c11 args
   | "c11s" :: args => c11s args
+  | "c04" :: args => c04 args
   | _ => "bad-op"
 
 partial def loop (h : IO.FS.Stream) (out : IO.FS.Stream) : IO Unit := do
